@@ -1,6 +1,7 @@
 """C01 - safe loading is confined to plain data (confinement argument over the program text)."""
 import sys
 
+from sa import rules_state as RSTATE
 from sa import rules_grammar as RG
 from sa import crosslist as XL
 from sa import rules_r6b as R6B
@@ -59,6 +60,7 @@ def run(ctx, repo):
     XL.mapping_rules(ctx, repo)
     ctx.call(R6B.r_constructor_kind_checked, repo, ['loader.SafeLoader', 'loader.BaseLoader'])
     ctx.call(RG.r_parser_grammar, repo, max_len=8 if ctx.tier == 'thorough' else 6)
+    ctx.call(RSTATE.r_directives_reset, repo)
 
 
 if __name__ == '__main__':
